@@ -120,6 +120,11 @@ def render(items, r=None, level=0):
             t = it[1]
             if level:
                 t = ''.join(c.upper() if r.random() < 0.4 else c for c in t)
+                if t.startswith(':') and r.random() < 0.5:
+                    # a pseudo-class name is an identifier: its characters may also be written as escapes
+                    body = t[1:]
+                    t = ':' + ''.join((esc_char(r, c, body[i + 1] if i + 1 < len(body) else None, level)
+                                       if (r.random() < 0.25 and not (c == '-' and i == 0)) else c) for i, c in enumerate(body))
             out.append(t)
         else:
             raise ValueError(k)
